@@ -306,6 +306,8 @@ impl<T> Pool<T> {
         }
         let _ = self.inner.available.fetch_add(1, Ordering::Relaxed);
         self.inner.semaphore.add_permits(1);
+        // The pool might have been closed since the slot was acquired.
+        self.inner.clean_up();
     }
 
     /// Removes an [`Object`] from this [`Pool`].
